@@ -164,14 +164,15 @@ def design_consts(tier):
 
 
 def model_jobs(tier):
+    th = tier == "thorough"
     base = design_consts(tier)
     tree = slice_consts(m1=["copy", "link"], l1=["pp", "pl", "pm"], links=True, mutlocs=["pa", "qa"], muthows=["mod", "rm"],
                         writes=["o", "l", "p/a", "p/l", "p/m"], maxmut=1, maxwrite=1, maxrestart=1, maxagain=1, maxevents=2, restages=(True, False))
     migc = slice_consts(mig=True, mutlocs=["pa"], muthows=["mod", "rm", "mkfile"], writes=["a"], maxmut=1, maxwrite=1, maxrestart=2, maxagain=1, maxevents=3,
                         restages=(True, False))
     loopc = slice_consts(m1=["copy", "link", "ref", "copyout", "loopref", "loopoutput", "output"], l1=["wa"], m2=["copy", "link"], l2=["pa", "wa"], lens=(1, 2),
-                         alt=("none", "dir"), mutlocs=["w0", "w1"], muthows=["mod", "rm", "mkfile"], writes=["o", "a"], iterates=True,
-                         maxmut=1, maxwrite=1, maxrestart=1, maxagain=2, maxevents=3, restages=(True, False))
+                         alt=("none", "dir") if th else ("none",), mutlocs=["w0", "w1"], muthows=["mod", "rm", "mkfile"], writes=["o", "a"], iterates=True,
+                         maxmut=1, maxwrite=1, maxrestart=1, maxagain=2 if th else 1, maxevents=3, restages=(True, False))
     body = lambda inv, prop: "SPECIFICATION Spec\n" + "".join("INVARIANT %s\n" % i for i in inv) + "".join("PROPERTY %s\n" % p for p in prop)
     jobs = []        # (kind, name, consts, body, property expected to fail, coverage)
     jobs.append(("hold", "asfound", base, body(INV_ASFOUND, PROP_ASFOUND), None, True))
@@ -332,20 +333,14 @@ def replay_one(W, world, hd, src0, labels, expected):
 
 
 def klass(hd, labels, i):
-    """canonical class of a mismatch: the event it shows at + the methods of the reference list (+ what history led there)"""
+    """canonical class of a mismatch: the event it shows at (a step: the method of its reference) + the kind of consumer"""
     lab = labels[i]
     ev = lab[0]
     if ev == "step":
         ev = "step-" + (hd["refs"][lab[3] - 1]["m"] if lab[1] == "ref" and lab[3] >= 1 else lab[1])
     elif ev == "restart":
         ev = "restart-" + lab[1]
-    ctx = set()
-    for l in labels[:i + 1]:
-        if l[0] == "restart" and l[1] == "restage":
-            ctx.add("restaged")
-        if l[0] == "again":
-            ctx.add("again")
-    return "staging:%s%s%s%s" % (ev, ":repeating" if hd["rep"] else "", ":migrated" if hd["mig"] else "", (":" + "+".join(sorted(ctx))) if ctx else "")
+    return "staging:%s%s%s" % (ev, ":repeating" if hd["rep"] else "", ":migrated" if hd["mig"] else "")
 
 
 def split(xs, n):
@@ -471,21 +466,24 @@ def spec_to_code(chk, tier, variant, only=None):
 HASH_SEEDS = (1, 4242)
 
 
-def start_hashseed_runs(chk, work):
+def start_hashseed_runs(chk, work, sample=True):
     """a sample of the multi-reference behaviours is replayed by fresh interpreters with other values of PYTHONHASHSEED"""
     import pickle
     import subprocess
     import sys
-    multi = [w for w in work if len(w[0]["refs"]) >= 2]
-    if not multi:
-        return []
-    rnd = random.Random(chk.seed)
-    rnd.shuffle(multi)
-    units = []
-    for hd, init, sub, leaves in multi[:160]:
-        part = leaves[:8]
-        units.append((hd, init, {h[:k]: sub[h[:k]] for h in part for k in range(1, len(h) + 1)}, part))
-    units.sort(key=lambda w: json.dumps(w[0], sort_keys=True))
+    if sample:
+        multi = [w for w in work if len(w[0]["refs"]) >= 2]
+        if not multi:
+            return []
+        rnd = random.Random(chk.seed)
+        rnd.shuffle(multi)
+        units = []
+        for hd, init, sub, leaves in multi[:160]:
+            part = leaves[:8]
+            units.append((hd, init, {h[:k]: sub[h[:k]] for h in part for k in range(1, len(h) + 1)}, part))
+        units.sort(key=lambda w: json.dumps(w[0], sort_keys=True))
+    else:
+        units = list(work)
     out = []
     for sv in HASH_SEEDS:
         path = os.path.join(chk.scratch, "hashseed_%d.pkl" % sv)
@@ -642,11 +640,63 @@ def run(tier, only=None):
         shutil.rmtree(chk.scratch, ignore_errors=True)
 
 
+def replay_behaviour(chk, rp, variant):
+    """re-derive the expected projections of ONE recorded behaviour with TLC (a slice made of just its reference list and events) and replay it"""
+    from .. import world_g07 as W
+    hd, labels, src0 = rp["header"], [tuple(l) for l in rp["labels"]], rp.get("src")
+    refs = hd["refs"]
+    pos = {}
+    for i in range(3):
+        pos["m%d" % (i + 1)] = [refs[i]["m"]] if i < len(refs) else []
+        pos["l%d" % (i + 1)] = [refs[i]["l"]] if i < len(refs) else []
+    ev = [l for l in labels if l[0] in ("again", "restart", "mut", "write", "iter")]
+    consts = slice_consts(lens=(len(refs),), reps=(bool(hd["rep"]),), mig=bool(hd["mig"]), alt=("none", "file", "dir"), links=True,
+                          mutlocs=sorted({l[1] for l in ev if l[0] == "mut"}), muthows=sorted({l[2] for l in ev if l[0] == "mut"}),
+                          writes=sorted({l[1] for l in ev if l[0] == "write"}), maxmut=sum(l[0] == "mut" for l in ev), maxwrite=sum(l[0] == "write" for l in ev),
+                          maxrestart=sum(l[0] == "restart" for l in ev), maxagain=sum(l[0] == "again" for l in ev), maxevents=len(ev),
+                          restages=sorted({l[1] == "restage" for l in ev if l[0] == "restart"}), iterates=any(l[0] == "iter" for l in ev), **pos)
+    fix = dict(FixSkip="TRUE" if variant["skip"] else "FALSE", FixRestage="TRUE" if variant["restage"] else "FALSE")
+    _n, r, states = emit_slice(("replay", dict(consts, **fix)))
+    chk.add_tlc(r)
+    by = {}
+    for st in states:
+        by.setdefault(json.dumps(st["s"]["i0"], sort_keys=True), {})[tuple(lab_t(l) for l in st["h"])] = st["s"]
+    cands = []
+    for k0, tr in by.items():
+        if tuple(labels) in tr and (src0 is None or all(tr[()]["src"].get(l) == v for l, v in src0.items())):
+            cands.append(tr)
+    if not cands:
+        raise MachineryError("the recorded behaviour is not a behaviour of the specification (any more): %s" % (labels,))
+    h = tuple(labels)
+    units = [(hd, tr[()], {h[:k]: tr[h[:k]] for k in range(1, len(h) + 1)}, [h]) for tr in cands]
+    if rp.get("hashseed"):
+        global HASH_SEEDS
+        HASH_SEEDS = (int(rp["hashseed"]),)
+        (_sv, _units, rs), = finish_hashseed_runs(start_hashseed_runs(chk, units, sample=False))
+    else:
+        rs = _replay_chunk((units, os.path.join(chk.scratch, "replay")))
+    for (_hd, init, _sub, _leaves), (ok, key, what, _n2, _dev) in zip(units, rs):
+        chk.evaluated(("behaviour", json.dumps(hd, sort_keys=True), json.dumps(init["src"], sort_keys=True), json.dumps(labels)))
+        if ok:
+            chk.trace_validated()
+        else:
+            chk.violation(("hashseed:" + key) if rp.get("hashseed") else key, what, rp)
+
+
 def replay(path):
     d = json.load(open(path))
     rp = d.get("replay") or {}
     if rp.get("kind") == "trace":
         from .. import g07_traces
         return g07_traces.replay(rp)
-    print("re-run ./check G07: the behaviours are re-derived from the specification; recorded case:", json.dumps(rp)[:600])
-    return run("quick")
+    if rp.get("kind") != "behaviour":
+        print("re-run ./check G07: recorded case:", json.dumps(rp)[:600])
+        return run("quick")
+    chk = Check(PID, "quick")
+    os.makedirs(GEN, exist_ok=True)
+    try:
+        replay_behaviour(chk, rp, probe_variant(chk))
+        return chk.finish()
+    finally:
+        shutil.rmtree(GEN, ignore_errors=True)
+        shutil.rmtree(chk.scratch, ignore_errors=True)
